@@ -40,14 +40,14 @@ PROPS = {
         assumptions=["limit setting unchanged within a window for the window-total clause (governance may lower a limit below current usage)"],
     ),
     "C19": dict(
-        lean_modules=["PalomaModel.Props.C19"],
+        lean_modules=["PalomaModel.Props.C19"], gen=["Mempool.lean"],
         harness_test="TestC19",
         n_quick=2000, n_thorough=20000, thorough_seeds=8,
         spec_ops=["select", "count"],
         rule="random insert/remove/select/count histories on the real PriorityNonceMempool[int64] with mock sdk.Tx values whose single message type URL is drawn from the five priority classes "
              "(so NewDefaultTxPriority is under test), unique (sender, seq) among pending, priority ties across senders, repeated selects; distinct = distinct canonical history; non-trivial = a select over >= 2 pending txs",
         trusted_base=["huandu/skiplist is abstracted as a list kept sorted by the code's comparator (validated by correspondence)"],
-        assumptions=["(sender, sequence) unique among pending (Admissible); for 'every pending transaction is yielded' additionally no pending priority equals MinInt64 (NoMin, proved necessary: select_complete_false_at_minvalue); CheckTx priority < MaxInt64-3 for the class clause (proved necessary: classes_false_at_bound); both hold in the wired application because TxFeeSkipper returns 42 for every transaction (theorem mempool_app; the function is exercised by the harness, the wiring TxFeeChecker: TxFeeSkipper in app/app.go is read from the source)"],
+        assumptions=["Admissible = no insert on a pending (sender, sequence) key with a changed priority - stronger than the literal precondition (unique pending keys), which holds for every history and is proved insufficient (keys_unique_always, literal_precondition_insufficient). It is discharged for the wired application by admission_admissible / mempool_wired under the external assumption ACovered (CometBFT re-checks everything the app pool holds after each commit); without re-check the replacement is reachable through the real app (stat finding.fullapp_*, Props/C19.md). NoMin (no pending priority = MinInt64) for completeness and CheckTx priority < MaxInt64-3 for the class clause are proved necessary and hold in the app because TxFeeSkipper returns 42 (model_constants_from_source ties the class table, the 42 and the app.go wiring to the source). Interleaving a live iterator with Insert/Remove is modelled: safety holds, completeness does not (live_remove_current_ends_iteration, live_reinsert_current_panics); baseapp SelectBy does not interleave"],
     ),
     "C02": dict(
         lean_modules=["PalomaModel.Props.C02"], gen=["Consts.lean", "Claims.lean", "Auth.lean"],
